@@ -432,9 +432,9 @@ func ruleC11Concurrency(c *Ctx) {
 	c.floor(ruleLS, 40, "(entry point, tracked field) pairs reachable from the concurrent entry points")
 	c.floor(ruleLO, 5, "lock-order edges and the acyclicity verdict")
 	k := &conc{c: c, s: c.sinks(), tracked: map[*types.Var]bool{}, memo: map[string]bool{}, edges: map[[2]lockID]string{}, pipeHeld: map[uint8]string{}, retHeld: map[*FuncInfo]uint8{}}
-	k.ioS, k.ioF = c.field("pkg/fs", "STFS", "ioLock"), c.field("pkg/fs", "File", "ioLock")
-	k.disk = c.field("pkg/operations", "Operations", "diskOperationLock")
-	k.readerL, k.phys = c.field("pkg/tape", "TapeManager", "readerLock"), c.field("pkg/tape", "TapeManager", "physicalLock")
+	k.ioS, k.ioF = c.mutex("fs.STFS"), c.mutex("fs.File")
+	k.disk = c.mutex("operations")
+	k.readerL, k.phys = c.mutex("tape.reader"), c.mutex("tape.physical")
 	k.readOpsS, k.readOpsF = c.field("pkg/fs", "STFS", "readOps"), c.field("pkg/fs", "File", "readOps")
 	k.writeOpsS, k.writeOpsF = c.field("pkg/fs", "STFS", "writeOps"), c.field("pkg/fs", "File", "writeOps")
 	k.tmGetWriter, k.tmGetReader, k.tmClose = c.fn("pkg/tape", "(*TapeManager).GetWriter"), c.fn("pkg/tape", "(*TapeManager).GetReader"), c.fn("pkg/tape", "(*TapeManager).Close")
@@ -466,7 +466,7 @@ func ruleC11Concurrency(c *Ctx) {
 				good := false
 				sig := newFile.Obj.Type().(*types.Signature)
 				for i := 0; i < sig.Params().Len() && i < len(cs.Call.Args); i++ {
-					if sig.Params().At(i).Name() == "ioLock" {
+					if pt, ok := sig.Params().At(i).Type().(*types.Pointer); ok && pt.Elem().String() == "sync.Mutex" {
 						if u, ok := ast.Unparen(cs.Call.Args[i]).(*ast.UnaryExpr); ok && u.Op == token.AND && selField(f.Pkg.TypesInfo, u.X) == k.ioS {
 							good = true
 						}
